@@ -528,6 +528,15 @@ func RunTiming(spec TimingSpec) vx.Out {
 				// the delivery, not from the previous TOUCH
 				evs = append(evs, ev{900, "TOUCH", i}, ev{1800, "TOUCH", i}, ev{2400, "TOUCH", i})
 				L[i] = maxMsgTO
+			case "req0touch":
+				// requeued at +700 and handed out again at once; the holder of that second
+				// delivery TOUCHes at +1600: the cap is max-msg-timeout after THAT delivery,
+				// not after the first one
+				evs = append(evs, ev{700, "REQ 0", i}, ev{1600, "TOUCH", i})
+				L[i], which[i] = 1600+to, 2
+				if L[i] > 700+maxMsgTO {
+					L[i] = 700 + maxMsgTO
+				}
 			case "req0":
 				evs = append(evs, ev{300, "REQ 0", i})
 				L[i] = 300
@@ -587,7 +596,7 @@ func RunTiming(spec TimingSpec) vx.Out {
 		}
 		at := ds[which[i]]
 		if at < L[i] {
-			bad("C04 delivered early", "%s (%s): delivery #%d at +%d ms, not legal before +%d ms (all deliveries %v)", body, fate, which[i]+1, at, L[i], ds)
+			bad("C04 C02 delivered early", "%s (%s): delivery #%d at +%d ms, not legal before +%d ms (all deliveries %v)", body, fate, which[i]+1, at, L[i], ds)
 		}
 		// the channel is older than the scan refresh interval, so it is scanned at every
 		// queue-scan tick (500 ms): the message is due at the first tick at or after L
